@@ -57,6 +57,12 @@ def internal_containers(h, roots):
 
     for r in roots:
         walk(r, "")
+    # module-level containers of the library are shared state too (a result served from one is not a snapshot)
+    for m in h.w.mods.values():
+        if m.name.startswith("edgegraph") and not m.name.endswith("plantuml"):
+            for k, v in m.globals.items():
+                if isinstance(v, (Seq, DictV, SetV)) and mutable(v):
+                    walk(v, f"{m.name}.{k}")
     return found
 
 
@@ -182,7 +188,7 @@ def run(ctx):
     m = captures(ctx, h, res)
     res.rule("CAPTURE", m)
     common.vacuity(res, "ESCAPE", 50)
-    common.vacuity(res, "CAPTURE", 17)
+    common.vacuity(res, "CAPTURE", 18)
     try:
         from sa import eff
         eff.escape_notes(ctx)
@@ -307,6 +313,13 @@ def captures(ctx, h, res):
     empty("Universe(vertices=)", "edgegraph.structure.universe.Universe.__init__", lambda: Seq([], "list"), lambda a: h.call(h.cls("Universe"), vertices=a))
     empty("UniverseLaws(edge_whitelist=)", "edgegraph.structure.universe.UniverseLaws.__init__", lambda: DictV(), lambda a: h.call(lawcls, edge_whitelist=a))
     empty("load_adj_dict(adjdict)", "edgegraph.builder.adjlist.load_adj_dict", lambda: DictV(), lambda a: h.call(h.fn("edgegraph.builder.adjlist.load_adj_dict"), a))
+    def b_whitelist_proxy_inner():
+        K1, K2 = h.cls("Vertex"), h.cls("DirectedEdge")
+        inner = DictV([[K1, K2]])
+        arg = DictV([[K1, ProxyV(inner)]])
+        return [("edge_whitelist", arg), ("the dict behind an inner mappingproxy of edge_whitelist", inner)], lambda: h.call(lawcls, edge_whitelist=arg), []
+
+    case("UniverseLaws(edge_whitelist= with read-only inner views)", "edgegraph.structure.universe.UniverseLaws.__init__", b_whitelist_proxy_inner)
     case("Vertex(links=)", "edgegraph.structure.vertex.Vertex.__init__", b_vertex_links)
     case("Vertex(universes=)", "edgegraph.structure.base.BaseObject.__init__", b_vertex_universes)
     case("Vertex(attributes=)", "edgegraph.structure.base.BaseObject.__init__", b_vertex_attributes)
